@@ -5,18 +5,30 @@ HOOKS = dict(
     guard='--cfg fuellabs_fuel_vm_verif',
     enable='RUSTFLAGS="--cfg fuellabs_fuel_vm_verif" FUELLABS_FUEL_VM_VERIF_DIR=/verif/harness cargo kani -p fuel-vm ... (set by lib/kanirun.py for in-crate harnesses; harnesses in /verif/harness/ext need no hooks)',
     baseline_off_cmd=BASELINE_OFF,
-    source_commits=[],
+    source_commits=['ce0b50b'],
     add_only=True,
 )
 NOTES = ("Every check is `./bin/check <id>`: it rebuilds the Kani goto programs from /repo's working tree, runs one CBMC/cadical "
          "process per harness under ulimit -v and a timeout, requires every check SUCCESS, every unwinding assertion SUCCESS and every "
          "kani::cover! SATISFIED; exit 2 = inconclusive (never success). See DESIGN.md.")
-_PENDING = 'not yet built in this revision of /verif (planned in DESIGN.md §7); no claim is made'
+_PENDING = 'not claimed: a solver-based check was planned (DESIGN.md §7) but not built in the time available; no harness exists, so no claim is made (see DESIGN.md §12.4)'
 NOT_APPLICABLE = {
-    'C12': 'sparse Merkle tree construction (insert/delete/from_set/root_from_set) does not get through CBMC: two operations on two concrete keys with a loop-free stand-in hash give no verdict in 600 s / 11-16 GB (DESIGN.md §6 P13); the property is entirely about construction under histories',
+    'C12': 'sparse Merkle tree construction (insert/delete/from_set/root_from_set) does not get through CBMC: even one insert + generate_proof on a single-leaf tree with an array-backed node store and a loop-free stand-in hash gives no verdict in 900 s (build phase, with --max-field-sensitivity-array-size 512), two inserts none in 600 s / 11-16 GB (DESIGN.md §6 P13); the property is entirely about construction under histories',
     'C13': 'same code as C12 plus load/reload; nothing decidable is left once construction is out of reach (DESIGN.md §8)',
     'C16': 'compares libsecp256k1 (C behind FFI, no goto program) with k256 (256-bit modular arithmetic, out of reach for bit-blasting); both wrappers are straight-line calls into the libraries (DESIGN.md §8)',
 }
-for _p in ['C01','C02','C03','C04','C05','C06','C07','C09','C10','C11','C14','C15','C17','C18','C19','C20','C21','C22','C23','C24',
-           'C25','C26','C27','C28','C29','C30','C31','C32','C33','C34','C35','C36']:
-    NOT_APPLICABLE.setdefault(_p, _PENDING)
+NOT_APPLICABLE.update({
+    'C03': 'not claimed: the id is SHA-256 over the canonical bytes through fuel_crypto::Hasher (streaming digest state); whole-transaction encoding harnesses (needed for the pre-image obligations) were planned in DESIGN.md §7 but not built in the time available',
+    'C04': 'not claimed: needs whole-transaction to_bytes harnesses per kind/shape (DESIGN.md §7, P20: 2-15 min per instance); not built in the time available',
+    'C05': 'not claimed: GTF/GM harnesses need a symbolic transaction inside the VM plus the C04 offsets; not built in the time available',
+    'C06': 'not claimed: serde_json decimal/float formatting is out of reach for bounded symbolic execution; the postcard/bincode Policies part planned in DESIGN.md §7 was not built',
+    'C07': 'not claimed: the only registry implementation in this repository is test code; the derive-generated async compress/decompress harnesses planned in DESIGN.md §7 were not built',
+    'C17': 'sign/recover/verify consistency is 256-bit curve arithmetic (libsecp256k1 behind FFI, k256/p256/ed25519-dalek field arithmetic): out of reach for bit-blasting; the signature_format / VM glue harnesses planned in DESIGN.md §7 were not built',
+    'C19': 'not claimed: the ~45-rule validity reference and per-kind harnesses planned in DESIGN.md §7 were not built in the time available (check_common_part also reaches itertools hash sets, K5)',
+    'C20': 'not claimed: signature recovery is curve arithmetic (see C17), predicate verification is a whole-VM run; the glue harnesses planned in DESIGN.md §7 were not built',
+    'C27': 'not claimed: RuntimeBalances is a hashbrown map (K5) and the TR/TRO/MINT/BURN/SMO handlers need a recording InterpreterStorage; not built in the time available',
+    'C30': 'not claimed: needs an InterpreterStorage implementation that records every access (RecStorage, DESIGN.md §7); not built in the time available',
+    'C31': 'not claimed: whole-run equivalence is beyond bounded symbolic execution; the init/reset one-step harness planned in DESIGN.md §7 was not built',
+    'C32': 'not claimed: whole-run equivalence is beyond bounded symbolic execution; the Debugger::eval_state harness planned in DESIGN.md §7 was not built',
+    'C35': 'not claimed: the upload/deploy/blob/upgrade step harnesses planned in DESIGN.md §7 (hook H3 into executors/main.rs) were not built in the time available',
+})
